@@ -392,3 +392,20 @@ chal_universe!(
     |p| p3_test_utils::LiftPermToQuintic::<F, _, 16>::new(p),
     true
 );
+chal_universe!(
+    kb5q1p1,
+    "KoalaBear-Quintic-D1challenger-W16-Poseidon1",
+    p3_koala_bear::KoalaBear,
+    p3_field::extension::QuinticTrinomialExtensionField<p3_koala_bear::KoalaBear>,
+    16,
+    8,
+    p3_koala_bear::Poseidon1KoalaBear<16>,
+    p3_koala_bear::default_koalabear_poseidon1_16(),
+    enable_poseidon1_perm_base,
+    p3_circuit::ops::poseidon1_perm::KoalaBearD1Width16,
+    p3_circuit::ops::generate_poseidon1_trace::<EF, p3_circuit::ops::poseidon1_perm::KoalaBearD1Width16>,
+    p3_circuit::ops::Poseidon1Config,
+    CircuitChallenger::new_koalabear_poseidon1_base(),
+    |p| p3_test_utils::LiftPermToQuintic::<F, _, 16>::new(p),
+    true
+);
